@@ -9,6 +9,8 @@ type PropRun struct {
 // Registry maps property ids to their checkers.
 var Registry = map[string]PropRun{
 	"C04": {"proof", RunC04},
+	"C17": {"proof", RunC17},
+	"C18": {"proof", RunC18},
 	"C20": {"proof", RunC20},
 }
 
